@@ -250,7 +250,23 @@ func (r *runner) candidateIndexes(q Query) []int {
 
 // indexProvidesOrder mirrors CanBeOrderedByIndex for the candidate indexes.
 func (r *runner) indexProvidesOrder(q Query) bool {
-	for _, i := range r.candidateIndexes(q) {
+	return r.someIndexProvidesOrder(q, r.candidateIndexes(q))
+}
+
+// anyIndexProvidesOrder: some existing index could supply the order (used where the planner's
+// choice is not modelled exactly, e.g. with relation conditions in the filter).
+func (r *runner) anyIndexProvidesOrder(q Query) bool {
+	var all []int
+	for i := range r.c.Idx {
+		if r.exists[i] {
+			all = append(all, i)
+		}
+	}
+	return r.someIndexProvidesOrder(q, all)
+}
+
+func (r *runner) someIndexProvidesOrder(q Query, candidates []int) bool {
+	for _, i := range candidates {
 		ix := r.c.Idx[i]
 		if len(q.Order) == 0 || len(q.Order) > len(ix.Fields) {
 			continue
@@ -556,7 +572,7 @@ func (r *runner) compare(qi int, q Query) *hx.Failure {
 				// in the plan of the twin without indexes, and of the indexed twin unless the index
 				// supplies the order
 				sig = sigScanOrderLaterKey
-			case !okA && q.ShowDeleted && d.empty() && sortedWithoutDeleted(rowsA, q.Order) && r.indexProvidesOrder(q) &&
+			case !okA && q.ShowDeleted && d.empty() && sortedWithoutDeleted(rowsA, q.Order) && r.anyIndexProvidesOrder(q) &&
 				(okB || (len(q.Order) > 1 && sortedByKeys(rowsB, q.Order, 1))):
 				// deleted documents are appended by a second fetcher; with the order node dropped
 				// (index order) the concatenation is not sorted
